@@ -33,7 +33,7 @@ func main() {
 	commitDuringJoin(rep)
 	shmWriteBack(rep)
 	// failure paths on the replica (spec/Faults.tla): one call of the apply of a streamed file / a snapshot fails
-	faults.Run(rep, args, faults.Select{Ops: []string{"replica_apply", "replica_snapshot", "role_change"}, Monitors: []string{"replica-image"}})
+	faults.Run(rep, args, faults.Select{Ops: []string{"replica_apply", "replica_snapshot", "role_change"}, Monitors: []string{"replica-image", "replica-mount"}})
 	if only == "" {
 		t3.Stage(rep, args, map[string]bool{"C01": true})
 	}
